@@ -2,10 +2,36 @@ package loader
 
 import "github.com/jsightapi/jsight-schema-go-library/notations/jschema/internal/schema"
 
+// AddUnnamedTypes makes the types known to the types of the root schema (the
+// unnamed types created for their "or" rules and the types added to them) known
+// to the root schema as well, transitively. A name the root schema already knows
+// keeps its meaning. The types are visited in a stable order, so the result does
+// not depend on the iteration order of maps.
 func AddUnnamedTypes(rootSchema *schema.Schema) {
-	for _, typ := range rootSchema.TypesList() {
-		for unnamed, unnamedTyp := range typ.Schema().TypesList() {
-			rootSchema.AddType(unnamed, unnamedTyp)
+	types := rootSchema.TypesList()
+	queue := rootSchema.TypeNames()
+	for i := 0; i < len(queue); i++ {
+		typ := types[queue[i]]
+		inner := typ.Schema()
+		if inner == nil || !hasUnknownType(inner, types) {
+			continue
+		}
+		innerTypes := inner.TypesList()
+		for _, name := range inner.TypeNames() {
+			if _, ok := types[name]; ok {
+				continue
+			}
+			rootSchema.AddType(name, innerTypes[name])
+			queue = append(queue, name)
 		}
 	}
+}
+
+func hasUnknownType(s *schema.Schema, known map[string]schema.Type) bool {
+	for name := range s.TypesList() {
+		if _, ok := known[name]; !ok {
+			return true
+		}
+	}
+	return false
 }
